@@ -21,6 +21,16 @@ Theorem C04_deadline : forall F c clk i j, routed c = true ->
 Proof. exact deadline_router. Qed.
 Print Assumptions C04_deadline.
 
+(* the router handler derives that context BEFORE it builds the proxy request (clk SRouter <= the
+   moment the request builder is entered): the deadline is no later than that moment + T, so the
+   time a (custom, possibly slow) RequestBuilder / ParamExtractor takes is counted against the
+   endpoint timeout *)
+Theorem C04_builder_time_counted : forall F c clk i j rb_in,
+  routed c = true -> clk SRouter <= rb_in ->
+  exists x, deadline (ctx_call F c clk i j) = Some x /\ x <= rb_in + c_T c.
+Proof. exact builder_time_counted. Qed.
+Print Assumptions C04_builder_time_counted.
+
 (* merging endpoints: no later than the start of the merge + 85 % of the endpoint timeout *)
 Theorem C04_deadline_merge : forall c clk i j, multi c = true ->
   exists x, deadline (ctx_call lura_factors c clk i j) = Some x /\
@@ -257,7 +267,7 @@ Definition ex_obs (dl1 : Z) : obs :=
                   {| k_be := 1; k_inv := 11; k_dl := Some dl1; k_done_after := true; k_depth := None; k_chain_done := true |};
                   {| k_be := 1; k_inv := 12; k_dl := Some dl1; k_done_after := true; k_depth := None; k_chain_done := true |};
                   {| k_be := 2; k_inv := 10; k_dl := Some 852; k_done_after := true; k_depth := None; k_chain_done := true |} ];
-     o_returned := true; o_ret := 860; o_keys := [0%nat]; o_leaked := 0; o_released := false; o_tainted := false |}.
+     o_returned := true; o_ret := 860; o_keys := [0%nat]; o_leaked := 0; o_released := false; o_rb := Some 5; o_tainted := false |}.
 Example C04_ex_oracle :
   spec_b lura_factors ex_cfg 100 (ex_obs 753) = true /\ spec_b lura_factors ex_cfg 100 (ex_obs 1100) = false.
 Proof. vm_compute. auto. Qed.
